@@ -39,6 +39,13 @@ pub enum ReqKind {
     SdaLow,
     SdnLow,
     SdnHigh,
+    SdaHigh,
+    MulticastSrd,
+    FdlStatus,
+    Ident,
+    LsapStatus,
+    TimeEvent,
+    ClockValue,
 }
 
 #[derive(Debug, Clone)]
@@ -93,8 +100,17 @@ impl FdlApplication for TrafficApp {
             ReqKind::SdaLow => RequestType::SdaLow,
             ReqKind::SdnLow => RequestType::SdnLow,
             ReqKind::SdnHigh => RequestType::SdnHigh,
+            ReqKind::SdaHigh => RequestType::SdaHigh,
+            ReqKind::MulticastSrd => RequestType::MulticastSrd,
+            ReqKind::FdlStatus => RequestType::FdlStatus,
+            ReqKind::Ident => RequestType::Ident,
+            ReqKind::LsapStatus => RequestType::LsapStatus,
+            ReqKind::TimeEvent => RequestType::TimeEvent,
+            ReqKind::ClockValue => RequestType::ClockValue,
         };
-        let expects = req.expects_reply();
+        // whether a reply is to be expected is taken from the frame format (reference codec), not
+        // from the crate under test
+        let expects = rc::request_expects_reply(FunctionCode::Request { fcb: FrameCountBit::First, req }.to_byte());
         self.log.borrow_mut().push(Cb::Tx { t: now.total_micros(), station: self.station, app: self.idx, sent: Some((target, expects)), hp });
         let fill = 0x50 + self.idx as u8;
         Some(tx.send_data_telegram(
@@ -122,13 +138,35 @@ pub fn gen_app_spec(t: &mut Tape, targets: &[u8], allow_hungry: bool) -> AppSpec
     AppSpec {
         burst,
         targets: tg,
-        kind: *t.pick(&[ReqKind::SrdLow, ReqKind::SrdLow, ReqKind::SrdHigh, ReqKind::SdaLow, ReqKind::SdnLow, ReqKind::SdnHigh]),
+        kind: *t.pick(&[ReqKind::SrdLow, ReqKind::SrdLow, ReqKind::SrdHigh, ReqKind::SdaLow, ReqKind::SdnLow, ReqKind::SdnHigh, ReqKind::SrdLow, ReqKind::SrdHigh, ReqKind::SdaHigh, ReqKind::MulticastSrd, ReqKind::Ident, ReqKind::LsapStatus, ReqKind::TimeEvent, ReqKind::ClockValue, ReqKind::FdlStatus]),
         pdu_len: match t.below(4) {
             0 => 0,
             1 => t.below(240) as usize,
             _ => t.below(20) as usize,
         },
     }
+}
+
+/// Passive stations (DP slaves / status-only stations) for a ring simulation: some inside the
+/// masters' address range (i.e. inside GAPs), some above HSA.  The simulation must have been created
+/// with one virtual node.
+pub fn add_passive_peers(sim: &mut crate::ringsim::Sim, t: &mut Tape) -> Vec<u8> {
+    let masters = sim.cfg.sorted_addrs();
+    let hsa = sim.cfg.hsa;
+    let max_delay = u64::from(sim.cfg.slot_bits) - 15;
+    let mut peers: BTreeMap<u8, (PeerKind, u64)> = BTreeMap::new();
+    let n = t.below(5) as usize;
+    for _ in 0..n {
+        let a = if t.chance(2, 3) { t.below(u64::from(hsa)) as u8 } else { t.below(126) as u8 };
+        if masters.contains(&a) {
+            continue;
+        }
+        let k = *t.pick(&[PeerKind::StatusOnly, PeerKind::DpSlave, PeerKind::FdlOnly]);
+        peers.insert(a, (k, 11 + t.below(max_delay - 10)));
+    }
+    let addrs: Vec<u8> = peers.keys().copied().collect();
+    sim.virtuals.push(Box::new(Peers { peers, shared: None, bit_ns: sim.cfg.bits_ns(1000).max(1) / 1000, answered: 0 }));
+    addrs
 }
 
 // ---------------------------------------------------------------------------------------------
